@@ -96,3 +96,36 @@ DIP5 = _f([[0, 10], [1, 7], [2, '14.5'], [3, 11], [4, 20]])
 # 6-point non-monotone curve whose global cost is not monotone along the fixed-size refinement sequence (the threshold can be accepting at S_k
 # and rejecting again at S_m, m > k): separates "stop at the first acceptable refinement, then top up" from "top up, then continue refining"
 BUMP6 = _f([[0, 1], [1, 6], [2, 1], [3, 4], [4, 2], [5, 0]])
+
+
+SPECIAL_CURVES = dict(zigzag=ZIGZAG, tie7=TIE7, bump6=BUMP6, dip5=DIP5, lm_cycle=LM_CYCLE, lm_cycle13=LM_CYCLE13)
+
+
+def get_curve(ref):
+    """pool index | name of a special curve | inline list of [x, y] pairs (used by realised abstract counterexamples)"""
+    if isinstance(ref, int):
+        return POOL[ref]
+    if isinstance(ref, str):
+        return SPECIAL_CURVES[ref]
+    return [[Fr(str(a)), Fr(str(b))] for a, b in ref]
+
+
+def random_curves(n, rnd, count=80):
+    """small-integer curves of n points (ties, plateaus and collinear runs are frequent), even and uneven spacing"""
+    out = []
+    tries = 0
+    while len(out) < count and tries < 20 * count:
+        tries += 1
+        ys = [rnd.randint(0, 6) for _ in range(n)]
+        if len(set(ys)) < 2 and n > 2:
+            continue
+        if rnd.random() < 0.7:
+            xs = list(range(n))
+        else:
+            xs = [0]
+            for _ in range(n - 1):
+                xs.append(xs[-1] + rnd.choice((1, 1, 2, 3)))
+        if rnd.random() < 0.3:
+            ys = sorted(ys, reverse=True)
+        out.append([[x, y] for x, y in zip(xs, ys)])
+    return out
